@@ -349,6 +349,13 @@ def results_before_copy(repo: Repo) -> RuleRun:
         w = Obj(f"w{i}")
         w.set("grading", mk_grading(f"w{i}.grading0"))
         w.set("length", Sym(f"len{i}"))
+        # every wire is shared with a block that is graded already, to other numbers
+        cw = Obj(f"cw{i}")
+        foreign = Obj(f"foreign{i}", is_defined=True, count=Sym("foreign-count"))
+        foreign.set("inverted", Obj(f"foreign{i}.inverted", is_defined=True, count=Sym("foreign-count")))
+        cw.set("grading", foreign)
+        cw.set("coincidents", {w})
+        w.set("coincidents", {cw})
         wires.append(w)
     this = Obj("mgr", cls=repo.cls("items.wires.manager.WireChopManager"))
     this.set("wires", wires)
@@ -364,6 +371,8 @@ def results_before_copy(repo: Repo) -> RuleRun:
             recv_chain = attr_chain(call.func.value)
             if call.func.attr == "update" and recv_chain in ("self", None) or (call.func.attr == "update" and isinstance(call.func.value, ast.Call)):
                 return None
+            if call.func.attr == "is_aligned":
+                return True
             if call.func.attr == "copy_preserving":
                 src = ev.eval(call.func.value)
                 events.append(("copy", src._name))
@@ -388,6 +397,23 @@ def results_before_copy(repo: Repo) -> RuleRun:
     for w in wires:
         got = [e[2] for e in events if e[0] == "wire-add" and e[1] == w._name]
         r.check(got == [("copy-of", "chopA"), ("copy-of", "chopB")], fn, f"{w._name}: receives copies of all chops in order", f"wire {w._name} receives {got}; expected a preserving copy of every chop of the axis, in order", fn.node, key=f"wire:{w._name}")
+    # a chopped axis is graded from ITS OWN chops: the hex entry carries the count of the axis grading, so the wires must carry the
+    # gradings those chops produced - not the grading of a neighbouring block that happens to be graded already (the four wires
+    # would then agree with each other and with their coincident wires, check_consistency stays silent, and the block is written
+    # with its own count in the hex entry and the neighbours' counts on its edges)
+    fresh_axis = this.get("grading")
+    for w in wires:
+        g = w.get("grading")
+        name = g._name if isinstance(g, Obj) else repr(g)
+        r.check(
+            isinstance(g, Obj) and name.startswith("fresh") and g is not fresh_axis,
+            fn,
+            f"{w._name}: carries a grading built from the axis' own chops",
+            f"after WireChopManager.grade wire {w._name} carries '{name}' - the grading of a coincident wire of another block - instead of the one built from this axis' chops: "
+            "the count written in the hex entry (axis grading) and the count on the block's edges differ and no consistency check can see it",
+            fn.node,
+            key=f"own-grading:{w._name}",
+        )
     return r
 
 
